@@ -84,6 +84,22 @@ def main(tier, seed):
                   obj=('min', None, {0: 1.0}))
     for accname in ('mip', 'all'):
         jobs.append((binary, len(jobs), 'chain', 'chain of 100 abs constraints', chain, accname, 0, 'absent', None, None))
+    # a free row (both bounds infinite), alone and next to a range row; a convex quadratic objective next to a cone-shaped
+    # row for an API that accepts cones and quadratic objectives (the conic pass may reformulate the objective)
+    free = Model([(0.0, 2.0, False, 0.5), (-2.0, 2.0, True, 1.0)], acons=[(None, {0: 1.0, 1: 1.0}, -INF, INF), (None, {0: 1.0, 1: -1.0}, -1.0, 2.0),
+                                                                         (('abs', ('v', 1)), {0: 1.0}, -INF, INF)], obj=('min', None, {0: 1.0}))
+    sq = lambda e: ('pow2', e)
+    V4c = [(-1.5, 1.5, False, 0.5), (0.0, 3.0, False, 0.5), (-2.0, 2.0, False, 1.0)]
+    socp = Model(V4c, acons=[(('sub', ('add', sq(('v', 0)), sq(('v', 2))), sq(('v', 1))), {}, -INF, 0.0)],
+                 obj=('min', ('add', sq(('v', 0)), ('mul', ('n', 2), sq(('v', 2)))), {1: 1.0}))
+    c19.ACC['cones+qobj'] = 'default=2;quadobj=1'
+    for accname in ('mip', 'all'):
+        for mode in (0, 2):
+            jobs.append((binary, len(jobs), 'free', 'free rows', free, accname, mode, 'absent' if mode == 0 else 'plain',
+                         None if mode == 0 else ['x1', 'x2'], None if mode == 0 else ['c1', 'c2', 'c3', 'obj1']))
+    for accname in ('cones+qobj', 'all', 'mip'):
+        jobs.append((binary, len(jobs), 'socp', 'quadratic objective + cone row', socp, accname, 0, 'absent', None, None))
+        jobs.append((binary, len(jobs), 'socp', 'quadratic objective + cone row', socp, accname, 2, 'plain', ['x1', 'x2', 'x3'], ['c1', 'obj1']))
     classes = set(); n = 0; nrec = 0
     with ThreadPoolExecutor(max_workers=vcheck.NCPU) as ex:
         for out, cls, ident, k in ex.map(one, jobs):
